@@ -893,6 +893,47 @@ pub fn run(ctx: &Ctx) -> Report {
     });
     rep.merge(r);
 
+    // ---- a login over TLS that the backend refuses, and one it accepts, under any pair of sequence ids
+    //      (SSLRequest, handshake response inside TLS): the answer is a conformant reply - an ERR or
+    //      an OK that continues the id of the packet it answers - or an error return
+    if let Some(m) = &tlsm {
+        let n = if ctx.miri { 0 } else { ctx.n(40, 1000) };
+        let r = par_cases(ctx, "C20", "tls-login-replies", n, |rng, i, rep| {
+            let reject = i % 2 == 0;
+            let seqs = if rng.bool() { (1u8, 2u8) } else { (rng.below(256) as u8, rng.below(256) as u8) };
+            let c = super::c18::TlsCase { tls13: rng.bool(), with_cert: false, server_mode: 0, user: b"tlsuser".to_vec(), cmds: vec![Cmd::ping()], scripts: vec![], first_cut: 0, cycle: if rng.bool() { vec![] } else { vec![rng.range(1, 200) as usize] }, write_limit: usize::MAX, close_notify: true, raw_limit: None, hs_variant: 0, app_override: None, seqs, auth_reject: if reject { Some(77) } else { None }, record_per_command: rng.bool(), write_fault: None, buffer_writes: rng.bool() };
+            let o = match super::c18::run_tls(m, &c) {
+                Ok(o) => o,
+                Err(e) => {
+                    rep.inconclusive.push(format!("TLS harness error: {}", e));
+                    return;
+                }
+            };
+            rep.evaluations += 1;
+            let d = || J::obj().set("login", if reject { "refused by the backend" } else { "accepted" }).set("ids (SSLRequest, response inside TLS)", format!("{:?}", seqs)).set("outcome", o.outcome.describe());
+            if i == 0 {
+                rep.sample(d());
+            }
+            if let Outcome::Panic { file, line, msg } = &o.outcome {
+                rep.violations.push(viol("C20", format!("C20 {}", panic_signature(file, *line, msg)), format!("a TLS login made run_on panic: {}", o.outcome.describe()), d()));
+                return;
+            }
+            let (pk, _) = wire::packets_prefix(&o.world.app_in);
+            let first = pk.first().map(|p| (p.seq, o.world.app_in[p.off + 4..p.off + 4 + p.len].to_vec()));
+            let want = seqs.1.wrapping_add(1);
+            let ok = match &first {
+                Some((seq, payload)) => *seq == want && if reject { wire::parse_err(payload).is_ok() } else { wire::parse_ok(payload).is_ok() },
+                None => false,
+            };
+            if ok {
+                rep.counters.inc("tls_login_replies_checked");
+            } else if o.world.client_error.is_none() {
+                rep.violations.push(viol("C20", "C20 nonconformant-reply tls-login".into(), format!("the reply to a handshake response with id {} inside TLS is {:?} (an {} with id {} is the conformant one)", seqs.1, first.map(|(s, p)| format!("id {} {}", s, show(&p[..p.len().min(24)]))), if reject { "ERR" } else { "OK" }, want), d()));
+            }
+        });
+        rep.merge(r);
+    }
+
     // ---- (c) random bytes
     let n = if ctx.miri { 6 } else { ctx.n(20_000, 2_000_000) };
     let r = par_cases(ctx, "C20", "random", n, |rng, i, rep| {
